@@ -659,9 +659,22 @@ func definiteKind(v ssa.Value) string {
 		}
 		return "false"
 	}
-	switch stripValue(v).(type) {
-	case *ssa.Alloc, *ssa.MakeInterface, *ssa.MakeMap, *ssa.MakeSlice, *ssa.MakeClosure:
+	switch x := stripValue(v).(type) {
+	case *ssa.Alloc, *ssa.MakeMap, *ssa.MakeSlice, *ssa.MakeClosure:
 		return "nonnil"
+	case *ssa.MakeInterface:
+		// an error built on the spot (`fmt.Errorf(...)`, `errors.New(...)`, the repository's constructors)
+		if c, ok := stripValue(x.X).(*ssa.Call); ok && isErrorConstructor(c) {
+			return "nonnil"
+		}
+		if _, ok := stripValue(x.X).(*ssa.Alloc); ok {
+			return "nonnil"
+		}
+		return "unknown"
+	case *ssa.Call:
+		if isErrorConstructor(x) {
+			return "nonnil"
+		}
 	}
 	return "unknown"
 }
@@ -755,8 +768,35 @@ func checkGateViaHelper(r *Report, rule string, hh *ssa.Function, callee, comp s
 		return Cont
 	}, nil)
 	allRets := Returns(h)
+	// which result carries the refusal: prefer one that HandleHandshake actually branches on
+	branchedOn := func(i int) bool {
+		var res ssa.Value = hc
+		if nres > 1 {
+			res = extractOf(hc, i)
+		}
+		if res == nil {
+			return false
+		}
+		for _, b := range hh.Blocks {
+			iff, ok := b.Instrs[len(b.Instrs)-1].(*ssa.If)
+			if !ok {
+				continue
+			}
+			c, _ := normCond(iff.Cond, true)
+			if x, _, ok := NilTest(c); ok && stripValue(x) == res {
+				return true
+			}
+			if stripValue(c) == res {
+				return true
+			}
+		}
+		return false
+	}
 	idx, class := -1, ""
 	for i := 0; i < nres && idx < 0; i++ {
+		if !branchedOn(i) {
+			continue
+		}
 		k := ""
 		same := len(rejRets) > 0
 		for _, rt := range rejRets {
@@ -859,14 +899,34 @@ func checkGateViaHelper(r *Report, rule string, hh *ssa.Function, callee, comp s
 				}
 				return Cont
 			}, func(b *ssa.BasicBlock, succ int) bool {
-				if comp == "" {
-					return true
-				}
 				last, ok := b.Instrs[len(b.Instrs)-1].(*ssa.If)
 				if !ok {
 					return true
 				}
 				c, pol := normCond(last.Cond, true)
+				// a bool parameter of the helper whose argument is a condition known at the credential
+				// call (`checkAdmission(ip, req.ClientID == 0)` ... `if req.ClientID == 0 { first connection }`)
+				if pp, isP := stripValue(c).(*ssa.Parameter); isP {
+					for i, q := range h.Params {
+						if q != pp || i >= len(hc.Call.Args) {
+							continue
+						}
+						a, apol := normCond(hc.Call.Args[i], true)
+						for _, ft := range Facts(cc.Block()) {
+							if ft.Cond == a || sameCond(ft.Cond, a) {
+								val := ft.Pol == apol // value of the parameter on the paths that reach cc
+								taken := 1
+								if val == pol {
+									taken = 0
+								}
+								return succ == taken
+							}
+						}
+					}
+				}
+				if comp == "" {
+					return true
+				}
 				if x, tmn, ok := NilTest(c); ok {
 					if _, fld, _, ok := FieldOf(x); ok && fld == comp {
 						nilSucc := 0
@@ -895,4 +955,18 @@ func checkGateViaHelper(r *Report, rule string, hh *ssa.Function, callee, comp s
 		r.Ob(rule, CallPos(gate), good, "address given to "+callee+" (through "+name+"): "+o+" (want extractIP(conn.GetRemoteAddr()), never a request field)", "HandleHandshake", "gate-address:"+callee)
 	}
 	return true
+}
+
+// isErrorConstructor: a call that always yields a non-nil error.
+func isErrorConstructor(c *ssa.Call) bool {
+	cal := CalleeOf(c)
+	switch {
+	case cal.Pkg == "fmt" && cal.Name == "Errorf":
+		return true
+	case cal.Pkg == "errors" && cal.Name == "New":
+		return true
+	case strings.HasSuffix(cal.Pkg, "core/errors") && (cal.Name == "New" || cal.Name == "Newf" || cal.Name == "Wrap" || cal.Name == "Wrapf"):
+		return true
+	}
+	return false
 }
